@@ -116,6 +116,7 @@ func (vm *VM) GetLocals(locals []Object) []Object {
 // goroutine.
 func (vm *VM) Abort() {
 	vm.pool.abort()
+	verifSync("abort.children-done", vm)
 	vm.abort.Store(1)
 }
 
@@ -127,6 +128,7 @@ func (vm *VM) Aborted() bool {
 
 // Run runs VM and executes the instructions until the OpReturn Opcode or Abort call.
 func (vm *VM) Run(globals Object, args ...Object) (Object, error) {
+	verifSync("run.entered", vm)
 	vm.mu.Lock()
 	defer vm.mu.Unlock()
 
@@ -135,7 +137,9 @@ func (vm *VM) Run(globals Object, args ...Object) (Object, error) {
 	}
 
 	vm.err = nil
+	verifSync("run.before-reset", vm)
 	vm.abort.Store(0)
+	verifSync("run.after-reset", vm)
 	vm.initGlobals(globals)
 	vm.initLocals(args)
 	vm.initCurrentFrame()
@@ -1634,6 +1638,7 @@ func (inv *Invoker) Invoke(args ...Object) (Object, error) {
 	if inv.child.Aborted() {
 		return Undefined, ErrVMAborted
 	}
+	verifSync("invoke.checked", inv.child)
 	if inv.isCompiled {
 		return inv.child.Run(inv.vm.globals, args...)
 	}
@@ -1677,6 +1682,7 @@ func (v *vmPool) acquire(cf *CompiledFunction, usePool bool) *VM {
 	} else {
 		vm = &VM{bytecode: &Bytecode{}}
 	}
+	verifSync("pool.before-register", vm)
 	return v.root.pool._acquire(vm, cf)
 }
 
@@ -1699,11 +1705,13 @@ func (v *vmPool) _acquire(vm *VM, cf *CompiledFunction) *VM {
 		v.vms = make(map[*VM]struct{})
 	}
 	v.vms[vm] = struct{}{}
+	verifSync("pool.registered", vm)
 
 	return vm
 }
 
 func (v *vmPool) release(vm *VM) {
+	verifSync("pool.before-release", vm)
 	v.root.pool._release(vm)
 }
 
